@@ -7,3 +7,5 @@ pub mod bytes;
 pub mod cfgs;
 pub mod oracle;
 pub mod subs;
+pub mod exec;
+pub mod threads;
